@@ -855,7 +855,7 @@ func (f *frame) applyContract(fs *FuncSpec, actuals []CV, res *types.Tuple, st *
 		if lbl == "" {
 			lbl = fmt.Sprint(k)
 		}
-		f.oblig("requires", site+"."+lbl, pc, goal.S, "requires "+c.Text+"   ["+fs.Key+"]", pos, nil)
+		f.oblig("requires", site+"."+lbl, pc, goal.S, "requires "+c.Text+"   ["+fs.Key+"]", pos, c.Props)
 		// once checked, the precondition may be used
 		g.s.assumeUnder(pc, goal.S)
 	}
